@@ -144,3 +144,46 @@ Proof.
   unfold gfree. destruct (Nat.eqb i j); [|reflexivity]. simpl.
   destruct i as [|[|i]]; [reflexivity | reflexivity | exfalso; lia].
 Qed.
+
+(** * The Gibbs table of PV.Wick is what the specification's weight function computes
+      (PV.EDSpec.weights at the number type CNum-like real ordering): for real levels and x_i = e^{-beta e_i},
+      whatever reference energy e0 the function subtracts. *)
+Definition CNumR : numops C := {|
+  n0 := RtoC 0; n1 := RtoC 1; nadd := Cplus; nsub := Cminus; nmul := Cmult; ndiv := Cdiv;
+  nopp := Copp; nconj := Cconj; nexp := fun z => RtoC (exp (Re z));
+  nre_ltb := fun a b => if Rlt_dec (Re a) (Re b) then true else false; nabs := fun z => RtoC (Cmod z);
+  nofZ := fun k => RtoC (IZR k); nI := Ci |}.
+
+Lemma weights_shift_2 : forall (beta e1 e2 : R) (e0 : C),
+  let E := energies CSetting [RtoC e1; RtoC e2] in
+  let u := map (fun e => nexp C CNumR (Copp (Cmult (RtoC beta) (Cminus e e0)))) E in
+  let Z := ksum C CNumR u (fun x => x) in
+  map (fun x => Cdiv x Z) u = gibbs CSetting [RtoC (exp (- beta * e1)); RtoC (exp (- beta * e2))].
+Proof.
+  intros beta e1 e2 [a0 b0]. cbv zeta.
+  set (t := exp (beta * a0)). set (x1 := exp (- beta * e1)). set (x2 := exp (- beta * e2)).
+  assert (Ht : 0 < t) by apply exp_pos. assert (Hx1 : 0 < x1) by apply exp_pos. assert (Hx2 : 0 < x2) by apply exp_pos.
+  assert (U0 : exp (Re (Copp (Cmult (RtoC beta) (Cminus (RtoC 0) (a0, b0))))) = t).
+  { unfold t. f_equal. simpl. ring. }
+  assert (U1 : exp (Re (Copp (Cmult (RtoC beta) (Cminus (Cplus (RtoC 0) (RtoC e1)) (a0, b0))))) = t * x1).
+  { unfold t, x1. rewrite <- exp_plus. f_equal. simpl. ring. }
+  assert (U2 : exp (Re (Copp (Cmult (RtoC beta) (Cminus (Cplus (RtoC 0) (RtoC e2)) (a0, b0))))) = t * x2).
+  { unfold t, x2. rewrite <- exp_plus. f_equal. simpl. ring. }
+  assert (U3 : exp (Re (Copp (Cmult (RtoC beta) (Cminus (Cplus (Cplus (RtoC 0) (RtoC e1)) (RtoC e2)) (a0, b0))))) = t * x1 * x2).
+  { unfold t, x1, x2. rewrite <- !exp_plus. f_equal. simpl. ring. }
+  rewrite (energies2 CSetting), (gibbs2 CSetting).
+  cbn [map nexp CNumR ksum fold_left nadd n0]. cbn [fK f0 f1 fadd fmul fsub fdiv CSetting].
+  rewrite U0, U1, U2, U3.
+  assert (Hcomp : forall a b : C, fst a = fst b -> snd a = snd b -> a = b) by (intros; now apply injective_projections).
+  assert (H1 : 0 < t * x1) by now apply Rmult_lt_0_compat.
+  assert (H2 : 0 < t * x2) by now apply Rmult_lt_0_compat.
+  assert (H3 : 0 < t * x1 * x2) by now apply Rmult_lt_0_compat.
+  assert (H4 : 0 < x1 * x2) by now apply Rmult_lt_0_compat.
+  apply (f_equal2 cons); [|apply (f_equal2 cons); [|apply (f_equal2 cons); [|apply (f_equal2 cons); [|reflexivity]]]];
+  (apply Hcomp; unfold Cdiv, Cinv, Cmult, Cplus, RtoC; simpl; field; repeat split; nra).
+Qed.
+
+Theorem weights_is_gibbs_2 : forall (beta e1 e2 : R),
+  weights C CNumR (RtoC beta) (energies CSetting [RtoC e1; RtoC e2]) =
+  gibbs CSetting [RtoC (exp (- beta * e1)); RtoC (exp (- beta * e2))].
+Proof. intros beta e1 e2. unfold weights. apply weights_shift_2. Qed.
